@@ -1,4 +1,4 @@
-import NixModel.Lemmas.C13File
+import NixModel.Lemmas.C13Refs
 
 /-!
 # C13 — tree searches, parents and 'referring' lists reflect the stored structure
@@ -61,7 +61,11 @@ theorem find_unlimited (root : Root) (filt : Node → Bool) (h : heightL root.me
   refine ⟨e, fun x => ?_⟩
   rw [e, List.mem_filter, (levels_perm _ _ (Nat.le_refl _)).mem_iff, and_comm]
 
---REACHABLE--
+/-- **every history leads to a well-formed file**: whatever sequence of create / set or delete metadata /
+link / unlink source / delete / reopen operations is applied to the empty file (refused operations change
+nothing), ids stay unique and every `_sec_parent` held by a creation handle is the owner's id -/
+theorem reachable_wf (f : File) (h : Reachable f) : WF f := wf_of_reachable h
+
 /-- **`Section.parent` is the containing section** (none at the top level), through the handle
 `create_section` returned (cached `_sec_parent`) as well as through any re-fetched or link-reached handle,
 in every well-formed file (`reachable_wf`: every state a history can produce) — also when names repeat, also after reopen (an operation of the history). -/
@@ -131,6 +135,15 @@ theorem source_referring_inverse (b : Block) (k k' : Nat) :
     · exact .inl (.inr ⟨h, hh, hkind, hk, hs⟩)
     · exact .inr ⟨h, hh, hkind, hk, hs⟩
 
+/-- **each referrer once**: in a well-formed file no referring list (per kind or `referring_objects`, of a
+section or of a source) names an entity twice -/
+theorem referring_once (f : File) (h : WF f) (k : Nat) :
+    (refBlocks f k).Nodup ∧ (∀ kind, (refHolders f kind k).Nodup) ∧ (refSources f k).Nodup ∧
+    (refObjects f k).Nodup ∧
+    ∀ b ∈ f.blocks, (∀ kind, (srcRefHolders b kind k).Nodup) ∧ (srcRefObjects b k).Nodup :=
+  ⟨refBlocks_nodup h k, fun _ => refHolders_nodup h _ k, refSources_nodup h k, refObjects_nodup h k,
+   fun _ hb => ⟨fun _ => srcRefHolders_nodup h hb _ k, srcRefObjects_nodup h hb k⟩⟩
+
 /-! ## non-vacuity: the states of the repaired defects are reachable and the answers are the owners -/
 
 /-- z, a at the top; z/a; z/a/a; a/a — names repeat across subtrees and levels -/
@@ -139,7 +152,22 @@ def exSections : File :=
           .createSection (some 2) "a" "t2", .createSection (some 1) "a" "t", .reopen]
 
 example : Reachable exSections := ⟨_, rfl⟩
---EX1--
+
+private def n3 : Node := .mk ⟨3, "a", "t2", none, none⟩ []
+private def n2 : Node := .mk ⟨2, "a", "t", none, none⟩ [n3]
+private def n4 : Node := .mk ⟨4, "a", "t", none, none⟩ []
+private def n1 : Node := .mk ⟨1, "a", "t", none, none⟩ [n4]
+private theorem exSections_sections :
+    exSections.sections = [.mk ⟨0, "z", "t", none, none⟩ [n2], n1] := by rfl
+
+/-- z/a/a re-fetched: the parent is z/a (key 2), not z (the first section with a child *named* a) -/
+example : sectionParent exSections 3 false = .ok (some 2) :=
+  (parent exSections (reachable_wf exSections ⟨_, rfl⟩) false).2 n2
+    (by rw [exSections_sections]; simp [nodesL, Node.nodes, n2]) n3 (by simp [n2, Node.children])
+/-- a/a re-fetched: the parent is the top-level a (key 1), not z -/
+example : sectionParent exSections 4 false = .ok (some 1) :=
+  (parent exSections (reachable_wf exSections ⟨_, rfl⟩) false).2 n1
+    (by rw [exSections_sections]; simp [nodesL, Node.nodes, n1]) n4 (by simp [n1, Node.children])
 example : (sectionParent exSections 0 true).toOption = some none := by decide
 
 /-- block with sources x / x / y, an array linking the inner x, a group linking y, metadata on the nested sources -/
